@@ -80,7 +80,23 @@ type c13kPod struct {
 type c13kOp struct {
 	Kind int `json:"kind"`
 	Pod  int `json:"pod"`
+	// teardown of a pod that is up: which of the pod's own host-namespace objects are already
+	// gone when the DEL runs (an earlier DEL that was interrupted half way, an operator's
+	// clean-up), bit mask of c13kGone*
+	Partial int `json:"partial"`
 }
+
+const (
+	c13kGoneFrom4  = 1 << iota // rule 2048 from A4
+	c13kGoneTo4                // rule 512 to A4
+	c13kGoneFrom6              // rule 2048 from A6
+	c13kGoneTo6                // rule 512 to A6
+	c13kGoneRoute4             // host route A4/32
+	c13kGoneRoute6             // host route A6/128
+	c13kGoneLink               // the host-side veth (with it, the container side)
+)
+
+var c13kGoneNames = []string{"from4", "to4", "from6", "to6", "route4", "route6", "hostlink"}
 
 type c13kScenario struct {
 	DP           int       `json:"dp"` // c13DPPolicy or c13DPExclusive
@@ -209,6 +225,14 @@ func c13kGen(t *rapid.T) c13kScenario {
 		}
 	}), 2, 9).Draw(t, "ops")
 	s.Ops[0].Kind = c13kSetup
+	for i := range s.Ops {
+		if s.Ops[i].Kind == c13kTeardown && rapid.IntRange(0, 1).Draw(t, "partial?") == 0 {
+			s.Ops[i].Partial = rapid.OneOf(
+				rapid.SampledFrom([]int{c13kGoneFrom4, c13kGoneTo4, c13kGoneFrom6, c13kGoneTo6, c13kGoneRoute4, c13kGoneRoute6, c13kGoneLink}),
+				rapid.IntRange(1, 127),
+			).Draw(t, "partial")
+		}
+	}
 	for i := range s.Ops {
 		// mostly address pods that exist, so that teardown usually meets a live pod
 		if s.Ops[i].Pod >= nPods && rapid.IntRange(0, 3).Draw(t, "fold") != 0 {
@@ -954,13 +978,83 @@ func (e *c13kEnv) doCheck(p int, when string) {
 
 // doTeardown mirrors doCmdDel: GenericTearDown on the pod's namespace, then the datapath's
 // own Teardown (the CNI has one for the policy-route datapath only).
-func (e *c13kEnv) doTeardown(p int, when string) {
+// partialBefore removes the drawn subset of pod p's own host-namespace objects, the way an
+// interrupted earlier DEL (or an operator) would have left things.
+func (e *c13kEnv) partialBefore(p int, mask int, when string) {
+	s := e.s
+	delRules := func(v6 bool, from bool) {
+		fam := netlink.FAMILY_V4
+		if v6 {
+			fam = netlink.FAMILY_V6
+		}
+		want := c13kHostPrefix(e.ifAddr(p, 0, v6))
+		rules, err := netlink.RuleList(fam)
+		e.scaffold(err, "rule list")
+		for i := range rules {
+			r := rules[i]
+			if (from && r.Priority == fromContainerPriority && c13NetStr(r.Src) == want) ||
+				(!from && r.Priority == toContainerPriority && c13NetStr(r.Dst) == want) {
+				e.scaffold(netlink.RuleDel(&r), "partial: rule del")
+			}
+		}
+	}
+	delRoute := func(v6 bool) {
+		fam := netlink.FAMILY_V4
+		if v6 {
+			fam = netlink.FAMILY_V6
+		}
+		_, hp, _ := net.ParseCIDR(c13kHostPrefix(e.ifAddr(p, 0, v6)))
+		routes, err := netlink.RouteListFiltered(fam, &netlink.Route{Dst: hp}, netlink.RT_FILTER_DST)
+		e.scaffold(err, "route list")
+		for i := range routes {
+			e.scaffold(netlink.RouteDel(&routes[i]), "partial: route del")
+		}
+	}
+	var done []string
+	for bit, name := range c13kGoneNames {
+		if mask&(1<<bit) == 0 {
+			continue
+		}
+		v6 := bit == 2 || bit == 3 || bit == 5
+		if bit < 6 && ((v6 && !s.V6) || (!v6 && !s.V4)) {
+			continue
+		}
+		switch {
+		case bit <= 3:
+			if s.DP != c13DPPolicy {
+				continue
+			}
+			delRules(v6, bit == 0 || bit == 2)
+		case bit <= 5:
+			delRoute(v6)
+		default:
+			if l, err := netlink.LinkByName(c13kHostVeth(p)); err == nil {
+				e.scaffold(netlink.LinkDel(l), "partial: link del")
+			} else {
+				continue
+			}
+		}
+		done = append(done, name)
+	}
+	if len(done) > 0 {
+		e.c.Trace("%s: already gone before the DEL: %v", when, done)
+		e.c.Label("teardown-live-partial")
+		for _, d := range done {
+			e.c.Label("partial:" + d)
+		}
+	}
+}
+
+func (e *c13kEnv) doTeardown(p int, partial int, when string) {
 	s := e.s
 	lv := e.live[p]
 	var cont ns.NetNS
 	hostLink := 0
 	if lv != nil {
 		cont, hostLink = lv.ns, lv.hostLink
+		if partial != 0 {
+			e.partialBefore(p, partial, when)
+		}
 	} else {
 		cont = e.newNS() // sandbox whose ADD never happened / already deleted
 	}
@@ -1157,7 +1251,7 @@ func c13kRunOpt(c *vt.Ctx, s c13kScenario, noGuard bool) {
 					c.Label("teardown-without-setup")
 				}
 			}
-			e.doTeardown(p, when)
+			e.doTeardown(p, op.Partial, when)
 		}
 		if len(e.live) > maxLive {
 			maxLive = len(e.live)
